@@ -150,7 +150,8 @@ class Prop:
 
     # ----- generation
     def _desc(self, shape, styles, i, typed=False):
-        nodes = B.shape_to_nodes(shape, lambda k, d, s: ((k * 5 + i) % len(UNIV), ("k%d" % (k % 2)) if typed else None, f"id{k}"))
+        same = (i % 5 == 2)     # all nodes carry the same data object: siblings are == but not identical
+        nodes = B.shape_to_nodes(shape, lambda k, d, s: ((i if same else k * 5 + i) % len(UNIV), ("k%d" % (k % 2)) if typed else None, f"id{k}"))
         return dict(typed=typed, univ=UNIV, nodes=nodes, name="T%d" % (i % 3), styles=styles,
                     repr=REPR_MODES[i % 3], title=TITLE_TEXT, join=JOINS[i % len(JOINS)])
 
@@ -263,17 +264,18 @@ class Prop:
                     ob = [0, ob[1][1:]]
                 f = self.check_lines(what, segs, ob, [], roots, bnodes, rend, None)
             else:
-                f = self.check_lines(what, segs, ob, expect_title(ti), roots, bnodes, rend, None)
+                # under a title line the top-level nodes carry their own connector (depth 1), without one they do not
+                f = self.check_lines(what, segs, ob, expect_title(ti), roots, bnodes, rend, 1 if expect_title(ti) else 0)
             if f:
                 return f
         # --- Node.format_iter for every start node
         for n, (o1, o0) in zip(nodes, nd):
-            f = self.check_lines(f"node {H.nid(n)}.format_iter(add_self=True)", segs, o1, [], [n], branch(n), rend, n)
+            f = self.check_lines(f"node {H.nid(n)}.format_iter(add_self=True)", segs, o1, [], [n], branch(n), rend, 0)
             if f:
                 return f
             kids = list(n._children or [])
             f = self.check_lines(f"node {H.nid(n)}.format_iter(add_self=False)", segs, o0, [], kids,
-                                 [x for r in kids for x in branch(r)], rend, None)
+                                 [x for r in kids for x in branch(r)], rend, 0)
             if f:
                 return f
         # --- format(join=j) == j.join(format_iter())
@@ -284,9 +286,11 @@ class Prop:
                 return f"node {H.nid(n)}.format(join): got {j!r}, format_iter gave {o1!r}"
         return None
 
-    def check_lines(self, what, segs, ob, title_lines, roots, bnodes, rend, unprefixed):
+    def check_lines(self, what, segs, ob, title_lines, roots, bnodes, rend, base):
         """ob: observed [0, lines] / [-1, err]; roots: the top nodes of the rendered branch (by pointers);
-        bnodes: all nodes of the branch in pre-order (by pointers)."""
+        bnodes: all nodes of the branch in pre-order (by pointers); base: the depth the prefixes of the
+        roots have to decode to (0 = no connector: the start node itself, or a branch printed without its
+        start node / title; 1 = connector under a title line); None = not specified."""
         if segs == "any":
             return None
         if segs is None:
@@ -335,6 +339,8 @@ class Prop:
         want = real_shape(roots)
         if shape != want:
             return f"{what}: shape: depths {depths} decode to {shape!r}, the branch is {want!r}"
+        if base is not None and depths and depths[0] != base:
+            return f"{what}: the roots of the branch are printed at depth {depths[0]}, expected {base}"
         # decoding 2: flags from the segments, where they are distinguishable
         for n, p, d in zip(bnodes, prefixes, depths):
             if d == 0:
